@@ -95,7 +95,7 @@ pub static CURRENT: [AtomicU64; 64] = {
     [Z; 64]
 };
 
-pub fn run_batch(prop: Prop, tier: Tier, seed: u64, runs: u64, threads: usize, max_secs: f64) -> BatchOutcome {
+pub fn run_batch(prop: Prop, tier: Tier, seed: u64, runs: u64, threads: usize, max_secs: f64, exclude: &[u64]) -> BatchOutcome {
     let t0 = Instant::now();
     let threads = threads.clamp(1, 64);
     let mut total = BatchStats::new();
@@ -141,6 +141,9 @@ pub fn run_batch(prop: Prop, tier: Tier, seed: u64, runs: u64, threads: usize, m
                             if i >= end {
                                 break;
                             }
+                            if exclude.contains(&i) {
+                                continue;
+                            }
                             CURRENT[me].store(i + 1, Ordering::Relaxed);
                             *starts[me].lock().unwrap() = Some((i, Instant::now()));
                             let scn = generate(prop, seed, i, tier);
@@ -156,6 +159,8 @@ pub fn run_batch(prop: Prop, tier: Tier, seed: u64, runs: u64, threads: usize, m
                             CURRENT[me].store(0, Ordering::Relaxed);
                             bs.add_run(&r);
                             if let Some(v) = r.violations.into_iter().next() {
+                                // told to the supervisor at once, in case the process dies before the chunk ends
+                                eprintln!("FOUND run={} class={}", i, v.class);
                                 fs.push(Found { run: i, violation: v });
                             }
                         }
